@@ -542,7 +542,16 @@ func evalHijack(c *hcase, body []byte, dStatus int, dBody []byte, o obs) (viols 
 		// not answered by a cluster operation: a faithful relay, or a
 		// proxy-made refusal without any effect.
 		if len(o.Daemon) == 0 && isErrorAnswer(o) {
-			return nil, fmt.Sprintf("unspecified:proxy-answer-%d-no-effect", o.Status)
+			// The proxy's router redirects non-canonical paths (301: the
+			// recorded finding of the pass-through section) and a relay to a
+			// stopped daemon ends in 502. Any other answer made up by the
+			// proxy is neither of the two things the text allows (perform
+			// the cluster operation, or relay).
+			if o.Status == 301 || (daemonDown && o.Status == 502) {
+				return nil, fmt.Sprintf("unspecified:proxy-answer-%d-no-effect", o.Status)
+			}
+			return []vio{{fmt.Sprintf("neither-hijacked-nor-relayed:proxy-answered-%d", o.Status),
+				fmt.Sprintf("%s %s: answered %d by the proxy itself: no cluster operation, nothing relayed", c.Method, c.Target, o.Status)}}, "proxy-made-answer"
 		}
 		for _, p := range relayProblems(c.Method, c.Target, body, dStatus, dBody, o) {
 			viols = append(viols, vio{"neither-hijacked-nor-relayed:" + p.symptom, p.what})
